@@ -189,7 +189,10 @@ func (n *networkTopology) replicaMap(tokenRing *tokenRing) tokenRingReplicas {
 	// hosts already visited while walking the ring for the current token
 	seenHosts := make(map[*HostInfo]struct{}, len(tokenRing.hosts))
 
-	for _, h := range tokenRing.hosts {
+	// only hosts that own tokens make up the topology the replicas are placed on, a host
+	// without tokens must not add a rack that no replica can be placed in
+	for _, th := range tokenRing.tokens {
+		h := th.host
 		dc := h.DataCenter()
 		rack := h.Rack()
 
